@@ -42,7 +42,8 @@ Record shape := mkShape {
   sh_wait_all : bool;        (* bicopy receives from donec once per copier before returning *)
   sh_close_up : bool;        (* the dialled connection is closed when the tunnel returns (defer crw.Close / res.Body.Close) *)
   sh_close_down : bool;      (* the client connection is closed when the tunnel returns (errClose, defer conn.Close) *)
-  sh_clears_deadline : bool  (* tunnel(): the request's read deadline is cleared before the copiers start *)
+  sh_clears_deadline : bool; (* tunnel(): the request's read deadline is cleared before the copiers start *)
+  sh_clears_wdeadline : bool (* writeResponse: the write deadline armed for the reply head is cleared again *)
 }.
 
 Record dstate := mkD {
@@ -157,10 +158,11 @@ Definition closed (sd : side) (s : state) : bool := match sd with Up => s_up s |
 Definition can_copy (sh : shape) (s : state) : bool :=
   s_replied s && (negb (sh_drain_first sh) || is_nil (d_pre (s_ct s))).
 Definition any_closed (s : state) : bool := s_up s || s_down s.
-(* can a Read/Write of copier d fail: a connection of the tunnel has been closed,
-   or (client side only) the request's read deadline is still armed *)
+(* can a Read/Write of copier d fail: a connection of the tunnel has been closed, or a
+   deadline is still armed on the client connection — the request's read deadline
+   (copier CT reads from it), the reply's write deadline (copier TC writes to it) *)
 Definition may_break (sh : shape) (s : state) (d : dir) : bool :=
-  any_closed s || (negb (sh_clears_deadline sh) && dir_eqb d CT).
+  any_closed s || (negb (sh_clears_deadline sh) && dir_eqb d CT) || (negb (sh_clears_wdeadline sh) && dir_eqb d TC).
 Definition is_done (x : dstate) : bool := cop_eqb (d_cop x) Done.
 Definition both_done (s : state) : bool := is_done (s_ct s) && is_done (s_tc s).
 Definition some_done (s : state) : bool := is_done (s_ct s) || is_done (s_tc s).
@@ -258,8 +260,8 @@ Definition is_env (l : label) : bool :=
 Definition shape_ok (sh : shape) : Prop :=
   sh_drain_first sh = true /\ sh_drain_rereads sh = false /\ sh_closewrite sh = true /\
   sh_wait_all sh = true /\ 0 < sh_bufsz sh /\ (0 <= sh_grace sh)%Z /\ sh_close_up sh = true /\ sh_close_down sh = true /\
-  sh_clears_deadline sh = true.
+  sh_clears_deadline sh = true /\ sh_clears_wdeadline sh = true.
 
 Definition shape_okb (sh : shape) : bool :=
   sh_drain_first sh && negb (sh_drain_rereads sh) && sh_closewrite sh && sh_wait_all sh &&
-  (0 <? sh_bufsz sh) && (0 <=? sh_grace sh)%Z && sh_close_up sh && sh_close_down sh && sh_clears_deadline sh.
+  (0 <? sh_bufsz sh) && (0 <=? sh_grace sh)%Z && sh_close_up sh && sh_close_down sh && sh_clears_deadline sh && sh_clears_wdeadline sh.
